@@ -245,6 +245,79 @@ def f():
     b.pool = {2: "b"}
     return b._ind, b.pool, scale(3, 4), fact(5)
 """,
+    "iterator-classes-and-unary-invert": """
+class Pairs:
+    def __init__(self, probe, k):
+        self.probe = probe
+        self.k = k
+        self.i = 0
+    def __iter__(self):
+        return self
+    def __next__(self):
+        pool = self.probe()
+        if not len(pool) > self.k:
+            raise StopIteration
+        i = self.i
+        self.i += 1
+        return i, pool.pop(), pool.pop()
+class Work:
+    def __init__(self):
+        self.items = []
+    def push(self, x):
+        self.items.append(x)
+    def __iter__(self):
+        return self
+    def __next__(self):
+        if not self.items:
+            raise StopIteration
+        return self.items.pop(0)
+    def __bool__(self):
+        return bool(self.items)
+    def __len__(self):
+        return len(self.items)
+def f():
+    data = [1, 2, 3, 4, 5, 6]
+    out = []
+    for i, a, b in Pairs(lambda: data, 2):
+        out.append((i, a, b))
+        data.append(a + b)
+    w = Work()
+    w.push(1); w.push(2)
+    seen = []
+    for x in w:
+        seen.append(x)
+        if x < 4:
+            w.push(x + 2)
+    return out, data, seen, bool(w), len(w), list(Pairs(lambda: [1], 2)), ~sum(1 << i for i in (0, 2)), next(iter(Work()), "empty")
+""",
+    "descriptors-set-name-and-get": """
+class Infix:
+    def __set_name__(self, owner, name):
+        self.kind = name.removesuffix("_gate")
+        self.owner = owner.__name__
+    def __get__(self, obj, owner=None):
+        if obj is None:
+            return self
+        kind = self.kind
+        def callback(items):
+            return obj.emit(kind, items)
+        return callback
+class T:
+    and_gate = Infix()
+    or_gate = Infix()
+    plain = 5
+    def __init__(self):
+        self.log = []
+    def emit(self, kind, items):
+        self.log.append((kind, tuple(items)))
+        return kind + "_" + "_".join(items)
+class S(T):
+    xor_gate = Infix()
+def f():
+    t = S()
+    r = [t.and_gate(["a", "b"]), t.or_gate(["c"]), t.xor_gate(["x", "y"]), t.plain]
+    return r, t.log, T.__dict__["and_gate"].kind if False else S.xor_gate.owner
+""",
     "infinite-generator": """
 def naturals():
     i = 0
